@@ -124,12 +124,13 @@ def case_control(dummy):
     good = flowstep.ns_step("ns2d", w0, u0, f0, dt, nu, rho, float(sim.dx), 2, fs)
     bad = flowstep.ns_step("ns2d", w0, u0, f0, dt, nu * 1.001, rho, float(sim.dx), 2, fs)
     eps = np.finfo(np.float64).eps
-    ok_good = np.all(np.abs(sim.vorticity_field - good["vorticity"]) <= 64 * eps * good["scale_w"])
-    ok_bad = np.all(np.abs(sim.vorticity_field - bad["vorticity"]) <= 64 * eps * bad["scale_w"])
-    if not ok_good or ok_bad:
+    # the control concerns the ORACLE only (it must separate two references that differ by 0.1 % in nu),
+    # not the tree under check: a broken tree must produce a verdict, not a harness error
+    sep = np.abs(good["vorticity"] - bad["vorticity"]) > 64 * eps * (good["scale_w"] + bad["scale_w"])
+    if not np.any(sep):
         from harness.interp import HarnessError
 
-        raise HarnessError(f"C01 negative control failed: good={ok_good} bad={ok_bad}")
+        raise HarnessError("C01 negative control failed: tolerance cannot separate references that differ by 0.1% in viscosity")
     return CaseResult(states=1, transitions=1, traces=1, outcome="control")
 
 
